@@ -229,6 +229,33 @@ fn main() {
         .unwrap_or(16);
     let code = if args[1] == "replay" {
         replay(&args[2])
+    } else if args[1] == "loop" {
+        // vcheck loop <file> <n>: re-run one saved case n times in this process (flake hunting)
+        let n: usize = args.get(3).and_then(|s| s.parse().ok()).unwrap_or(1000);
+        let v: serde_json::Value =
+            serde_json::from_str(&std::fs::read_to_string(&args[2]).unwrap()).unwrap();
+        let check = v["check"].as_str().unwrap_or("").to_string();
+        let mut fails = 0;
+        for id in ALL {
+            for s in all_subs_for(id) {
+                if s.p.dname() == check {
+                    for i in 0..n {
+                        if let Ok(Err(f)) = s.p.dreplay(&v["case"]) {
+                            fails += 1;
+                            if fails <= 3 {
+                                println!("iteration {}: {}", i, f.msg);
+                            }
+                        }
+                    }
+                }
+            }
+        }
+        println!("{} failures in {} iterations", fails, n);
+        if fails > 0 {
+            1
+        } else {
+            0
+        }
     } else {
         let tier = Tier {
             quick: args[2] != "thorough",
